@@ -113,6 +113,10 @@ impl VariableByteInteger {
             if (b & 0x80) == 0 {
                 // complete
                 return match Self::from_u32(value) {
+                    // MQTT 1.5.5: the encoded value MUST use the minimum number of bytes
+                    Some(vbi) if vbi.size() != i + 1 => {
+                        DecodeResult::Err("Malformed VariableByteInteger: not minimal")
+                    }
                     Some(vbi) => DecodeResult::Ok(vbi, i + 1),
                     None => DecodeResult::Err("Encoding failure"),
                 };
